@@ -91,7 +91,7 @@ func runC01(c *Ctx) error {
 		cases = append(cases, c01Case{Class: "two-faults", K: 2, FanOut: i % 3, Msgs: 2, Buffer: i % 2, OneRouter: i%4 == 0, Faults: []c01Fault{p[0], p[1]}})
 	}
 	// long random fault sequences on longer pipelines
-	n := c.Pick(25, 700)
+	n := c.Pick(25, 6000)
 	for i := 0; i < n; i++ {
 		k := 2 + c.Rng.Intn(3)
 		cs := c01Case{Class: "random-faults", K: k, FanOut: c.Rng.Intn(k + 1), FanIn: c.Rng.Intn(3) == 0, OneRouter: c.Rng.Intn(2) == 0, Msgs: 1 + c.Rng.Intn(3),
